@@ -104,12 +104,18 @@ def run(res, tier):
                 samples.append(desc)
     # cross-term supply rates on data where the constraint is active, few iterations (the loop ends on max_iter, the
     # returned P_ is the last problem-B solution): the certificate must hold for the REQUESTED supply rate
-    for h in range(10 if tier == 'quick' else 60):
+    n_cross = 10 if tier == 'quick' else 60
+    for h in range(n_cross + (4 if tier == 'quick' else 12)):
         ns = 1 + h % 2; nu = 1 + (h // 2) % 2
+        if h >= n_cross:
+            ns = nu = 2          # square cross block that is far from symmetric (its transpose is its negative)
         X, _, _ = lmi.linear_data(rng, ns, nu, kind=['unstable', 'marginal'][h % 2])
         X12 = np.round(rng.uniform(-1.0, 1.0, size=(ns, nu)), 2)
         if not np.any(X12):
             X12[0, 0] = 0.7
+        if h >= n_cross:
+            a_ = float(rng.choice([0.6, 0.9]))
+            X12 = np.array([[0.0, a_], [-a_, 0.0]]) + (0.2 * np.eye(2) if h % 2 else 0)
         Xi = np.block([[0.5 * np.eye(ns), X12], [X12.T, -float(rng.choice([1.5, 2.0, 3.0])) * np.eye(nu)]])
         reg = L.LmiEdmdDissipativityConstr(alpha=0.0, supply_rate=Xi, max_iter=1 + h % 3, solver_params=lmi.SOLVER)
         try:
